@@ -159,7 +159,7 @@ func corpusList() []corpusCase {
 		h.main.Body = body
 		return finish(h.g, h.main)
 	})
-	// C17-2 (= C05-3, open): error("m", 2) reports the level-1 position
+	// C17-2 (= C05-3, fixed 7dd2d0e by the coordinator): error("m", 2) reported the level-1 position
 	add("error-level-2", func() *Generated {
 		h := newHand(5)
 		inner := &Func{ID: h.g.fn()}
@@ -174,8 +174,7 @@ func corpusList() []corpusCase {
 		ci.callSite, ci.callPt, ci.callerFn = ce, p, co
 		er := call(name("error"), str("\"m\""), num(2))
 		inner.Body = []*Stmt{{K: "call", Exprs: []*Expr{er}}}
-		h.g.lines = append(h.g.lines, lineObs{"range", func() int { return ce.First }, func() int { return er.Anchor }, obsSrc{"err", 1, 0, 0}, "err:error2"})
-		h.g.kf["C17-2"] = true
+		h.g.lines = append(h.g.lines, lineObs{"range", func() int { return ce.First }, func() int { return ce.Anchor }, obsSrc{"err", 1, 0, 0}, "err:error2"})
 		h.g.classes["fault:error2"] = true
 		h.fx.declare(Binding{"inner", nil})
 		co.resolve("inner")
